@@ -20,6 +20,7 @@ import CedarGoProofs.Lemmas.C12Duration
 import CedarGoProofs.Lemmas.C12Civil
 import CedarGoProofs.Lemmas.C12Datetime
 import CedarGoProofs.Lemmas.C12IP
+import CedarGoProofs.Lemmas.C12IP6b
 namespace CedarGo
 open Scalars
 
@@ -265,14 +266,65 @@ example : ¬ InI64 (daysFromCivil 999999999 12 31 * 86400000) ∧
   FULL STATEMENT (false for the code): `parseIP (printIP n) = .ok n` for every address / prefix value.
   Proved part: every IPv4 address and every IPv4 prefix (all 2^32 addresses × prefix lengths 0–32), relative to the
   model's transcription of `netip.ParseAddr` / `ParsePrefix` / `Addr.String` (tied to Go by the ops parse-ip / print-ip).
-  IPv6 is not proved (only checked by correspondence and the Go-side round-trip oracle), and it FAILS for IPv4-mapped
-  addresses: `C12_ip_4in6_counterexample`. -/
+  IPv6: see `C12_ip_roundtrip_v6_partial` (every address / prefix that is not IPv4-mapped) and `C12_ip_roundtrip_iff`;
+  it FAILS for IPv4-mapped addresses: `C12_ip_4in6_counterexample`, `C12_ip_4in6_unparseable`. -/
 theorem C12_ip_roundtrip_partial (a bits : Nat) (ha : a < 2 ^ 32) (hb : bits ≤ 32) :
     parseIP (printIP ⟨false, a, bits⟩) = .ok ⟨false, a, bits⟩ := by
   simp only [parseIP, printIP, String.toList_ofList]
   exact parseIPL_printIPL_v4 a bits (by omega) hb
 
 example : printIP ⟨false, 167772160, 8⟩ = "10.0.0.0/8" ∧ printIP ⟨false, 2130706433, 32⟩ = "127.0.0.1" := ⟨by rfl, by rfl⟩
+
+/-- **IPv6**: every IPv6 address and every IPv6 prefix (all 2^128 addresses except the IPv4-mapped block
+    ::ffff:0:0/96, prefix lengths 0–128) prints — lower-case hex groups without leading zeros, the leftmost longest run
+    of ≥ 2 zero groups compressed to `::` (`appendTo6`) — to text that `ParseIPAddr` reads back to the same value. -/
+theorem C12_ip_roundtrip_v6_partial (a bits : Nat) (ha : a < 2 ^ 128) (h4 : a / 2 ^ 32 ≠ 0xffff) (hb : bits ≤ 128) :
+    parseIP (printIP ⟨true, a, bits⟩) = .ok ⟨true, a, bits⟩ := by
+  simp only [parseIP, printIP, String.toList_ofList]
+  exact parseIPL_printIPL_v6 a bits ha (by simpa using h4) hb
+
+example : printIP ⟨true, 0x20010db8000000000000000000000001, 128⟩ = "2001:db8::1" ∧ printIP ⟨true, 0, 128⟩ = "::" ∧
+    printIP ⟨true, 0xfe800000000000000000000000000000, 10⟩ = "fe80::/10" ∧
+    printIP ⟨true, 0x00010000000000020000000000000003, 128⟩ = "1:0:0:2::3" ∧
+    printIP ⟨true, 0x00010000000000020000000000030004, 128⟩ = "1::2:0:0:3:4" ∧
+    printIP ⟨true, 0x00010002000300040005000600070008, 64⟩ = "1:2:3:4:5:6:7:8/64" :=
+  ⟨by rfl, by rfl, by rfl, by rfl, by rfl, by rfl⟩
+
+/-- the whole IPv4-mapped block fails: every ::ffff:a.b.c.d (with any prefix length) prints in mixed notation, which
+    `ParseIPAddr` refuses (two `:` and two `.`) -/
+theorem C12_ip_4in6_unparseable (a bits : Nat) (h4 : a / 2 ^ 32 = 0xffff) :
+    parseIP (printIP ⟨true, a, bits⟩) = .error .extIP := by
+  simp only [parseIP, printIP, String.toList_ofList]
+  exact parseIPL_printIPL_4in6 a bits (by simpa using h4)
+
+/-- a value `netip` can hold: 32-bit address with prefix ≤ 32, or 128-bit address with prefix ≤ 128 -/
+def IPNet.Valid (n : IPNet) : Prop := if n.v6 then n.addr < 2 ^ 128 ∧ n.bits ≤ 128 else n.addr < 2 ^ 32 ∧ n.bits ≤ 32
+/-- `Addr.Is4In6` -/
+def IPNet.Is4In6 (n : IPNet) : Prop := n.v6 = true ∧ n.addr / 2 ^ 32 = 0xffff
+instance (n : IPNet) : Decidable n.Valid := by unfold IPNet.Valid; infer_instance
+instance (n : IPNet) : Decidable n.Is4In6 := by unfold IPNet.Is4In6; infer_instance
+
+/-- **exact domain of the ip round trip** (relative to the model's transcription of net/netip): a valid address / prefix
+    value round-trips through its text form iff it is not IPv4-mapped -/
+theorem C12_ip_roundtrip_iff (n : IPNet) (hv : n.Valid) : parseIP (printIP n) = .ok n ↔ ¬ n.Is4In6 := by
+  obtain ⟨v6, a, bits⟩ := n
+  cases v6 with
+  | false =>
+    simp only [IPNet.Valid, Bool.false_eq_true, if_false] at hv
+    simp only [IPNet.Is4In6, Bool.false_eq_true, false_and, not_false_eq_true, iff_true]
+    exact C12_ip_roundtrip_partial a bits hv.1 hv.2
+  | true =>
+    simp only [IPNet.Valid, if_true] at hv
+    simp only [IPNet.Is4In6, true_and]
+    constructor
+    · intro h h4
+      rw [C12_ip_4in6_unparseable a bits h4] at h
+      cases h
+    · intro h4
+      exact C12_ip_roundtrip_v6_partial a bits hv.1 h4 hv.2
+
+example : (⟨true, 1, 128⟩ : IPNet).Valid ∧ ¬ (⟨true, 1, 128⟩ : IPNet).Is4In6 ∧ (⟨true, 0xffff01020304, 128⟩ : IPNet).Is4In6 := by
+  decide
 
 -- regression (class `ip-zone-accepted`): IPv6 zone identifiers are rejected, alone or with a prefix length
 example : parseIP "fe80::1%eth0" = .error .extIP ∧ parseIP "fe80::1%eth0/64" = .error .extIP ∧
